@@ -190,7 +190,10 @@ CHECKS = {
                   "state as Model.log_delete decides - keeps, after EVERY step, every <base>.log / <base>.index file other than those of "
                   "the writing segment and of a header-only writing segment the Delete creates entirely on stable storage "
                   "(delete_steps_keep_durable; the proof uses that the rewritten files are fsynced before they take a segment's name), "
-                  "and leaves its temporary files durable. NOT proved: how this composes with the byte-level theorems over a whole "
+                  "and leaves its temporary files durable; and Delete is a link of the same chain as Publish / Sync / Close: if every "
+                  "file but the two of the writing segment was durable before, the same holds after the call for the writing segment of "
+                  "the state Model.log_delete returns (delete_step_sealed; after a Delete in the writing segment that keeps the newest "
+                  "message every file is durable). NOT proved: how this composes with the byte-level theorems over a whole "
                   "directory. Tied to /repo by comparing the write / fsync / create events of every Publish, "
                   "Sync and Close with the steps Durable.v computes, every file-system step of every Delete (syncs, rewrite, swap) with "
                   "DurableDelete.delete_full, and by power-loss images synthesized from the tap: every file cut to its "
